@@ -59,6 +59,17 @@ CHECKS = {
         "Trusted: numpy tensordot; areas are judged by C05; dyadic-rational data make float64 sums exact.",
         "DESIGN.md section 6, C06",
     ),
+    "C11": (
+        "property-based testing (Hypothesis): brute-force nearest-neighbour oracle over histories of tree requests",
+        "Exploration: histories of 1-5 tree requests on one generated grid; each step draws tree type, element kind, one of the documented "
+        "configurations (ball+haversine, ball+Cartesian, kd+Cartesian, kd+spherical), reconstruct, and a k-nearest (k incl. 1, n-1, n) or radius "
+        "query with 1-4 points in degrees or radians, planted at +-180 longitude, at / near the poles and on top of elements. Results are compared "
+        "with a brute-force search over element positions recomputed from the mesh under the requested metric (tie-tolerant), including order, "
+        "index dtype, distance units, and the configuration the returned tree reports.",
+        "Trusted: vlib/sphere.py distances; documented call conventions ((lon, lat) for ball+spherical, (lat, lon) for kd+spherical, radius in "
+        "degrees for ball+spherical); tolerance 1e-9 rad (5e-8 near the antipode).",
+        "DESIGN.md section 6, C11",
+    ),
     "C13": (
         "property-based testing (Hypothesis): independent enclosure/tightness oracle (sampling + analytic apex + shortest longitude cover) over constructed convex faces",
         "Exploration: strictly convex faces with 3-8 corners built by construction anywhere on the sphere (four size classes up to 88 degrees "
